@@ -319,3 +319,38 @@ pub fn lf_macroblock(
 ) {
     crate::loop_filter::macroblock_filter(hev, interior, edge, pixels, point, stride);
 }
+
+/// largest |dequantised coefficient| seen by `read_coefficients` since the last call of
+/// `take_max_abs_coefficient` (reference decoders store coefficients in 16 bits; a stream whose
+/// coefficients do not fit is outside what the format defines)
+static MAX_ABS_COEFFICIENT: std::sync::atomic::AtomicU32 = std::sync::atomic::AtomicU32::new(0);
+pub(crate) fn note_coefficient(v: i32) {
+    MAX_ABS_COEFFICIENT.fetch_max(v.unsigned_abs(), std::sync::atomic::Ordering::Relaxed);
+}
+pub fn take_max_abs_coefficient() -> u32 {
+    MAX_ABS_COEFFICIENT.swap(0, std::sync::atomic::Ordering::Relaxed)
+}
+
+/// `Vp8Decoder::calculate_filter_parameters` -> (filter level, interior limit, hev threshold)
+#[allow(clippy::too_many_arguments)]
+pub fn vp8_filter_parameters(
+    frame_level: u8,
+    sharpness: u8,
+    segments_enabled: bool,
+    segment_delta: bool,
+    segment_level: i8,
+    ref_delta0: i32,
+    mode_delta0: i32,
+    bpred: bool,
+) -> (u8, u8, u8) {
+    crate::vp8::verif_filter_parameters(
+        frame_level,
+        sharpness,
+        segments_enabled,
+        segment_delta,
+        segment_level,
+        ref_delta0,
+        mode_delta0,
+        bpred,
+    )
+}
